@@ -68,18 +68,25 @@ TIE_FUNCS = {
     "LSProofs.Gen.Clone": ["Repr.make_shallow_clone"],
     "LSProofs.Gen.Clear": ["LeanString.clear", "Repr.is_unique", "Repr.set_len", "Repr.replace_inner", "Repr.new"],
     "LSProofs.Gen.Kind": ["Repr.is_heap_buffer_body", "Repr.is_static_buffer_body"],
+    "LSProofs.Gen.PushStr": ["Repr.push_str", "Repr.reserve", "Repr.set_len", "Repr.replace_inner"],
+    "LSProofs.Gen.InsertStr": ["Repr.insert_str", "Repr.reserve", "Repr.set_len", "Repr.replace_inner"],
+    "LSProofs.Gen.PopRemove": ["Repr.pop", "Repr.remove", "Repr.ensure_modifiable", "Repr.set_len", "Repr.truncate_unchecked",
+                               "Repr.replace_inner", "Repr.from_str"],
+    "LSProofs.Gen.Good": ["Repr.push_str", "Repr.insert_str", "Repr.pop", "Repr.remove", "Repr.reserve", "Repr.ensure_modifiable",
+                          "Repr.shrink_to", "Repr.set_len", "Repr.truncate_unchecked", "Repr.replace_inner", "Repr.from_str",
+                          "Repr.make_shallow_clone"],
 }
 TIES = {
-    "C01": T("Ctor", "Readers", "Release", "SetLen", "Reserve", "Ensure", "Shrink", "Clone", "Clear"),
+    "C01": T("Ctor", "Readers", "Release", "SetLen", "Reserve", "Ensure", "Shrink", "Clone", "Clear", "PushStr", "InsertStr", "PopRemove", "Good"),
     "C02": T("Reserve", "Ensure", "Shrink", "Clear", "SetLen"),
     "C03": T("Release", "Clone", "Reserve", "Ensure", "Shrink"),
-    "C05": T("Reserve", "Ensure", "Shrink", "SetLen", "Ctor"),
+    "C05": T("Reserve", "Ensure", "Shrink", "SetLen", "Ctor", "PushStr", "InsertStr", "PopRemove"),
     "C06": T("Reserve", "Shrink", "Ctor"),
-    "C07": T("SetLen"),
+    "C07": T("SetLen", "InsertStr", "PopRemove"),
     "C08": T("Clone"),
-    "C09": T("Ctor", "Reserve"),
+    "C09": T("Ctor", "Reserve", "PushStr", "InsertStr", "PopRemove"),
     "C10": T("Reserve", "Ensure", "Clear", "SetLen"),
-    "C11": T("Readers", "Ctor", "Reserve"),
+    "C11": T("Readers", "Ctor", "Reserve", "PushStr", "InsertStr"),
     "C12": T("Reserve"),
     "C13": T("Shrink"),
     "C20": T("Kind"),
